@@ -61,6 +61,7 @@ func (s *addrSys) Ops() []string {
 }
 
 func (s *addrSys) Apply(op string) (obs, sig, msg string) {
+	defer panicAsViolation(op, &sig, &msg)
 	if s.lastOp != nil {
 		*s.lastOp = op
 	}
@@ -230,6 +231,7 @@ func (s *bindSys) Ops() []string {
 }
 
 func (s *bindSys) Apply(op string) (obs, sig, msg string) {
+	defer panicAsViolation(op, &sig, &msg)
 	if s.lastOp != nil {
 		*s.lastOp = op
 	}
